@@ -128,6 +128,8 @@ _c02 = _load('C02')
 UNITS += [dict(u) for u in _c02.UNITS]
 _c11 = _load('C11')
 UNITS += [dict(u) for u in _c11.UNITS if u['name'] == 'confirmation']
+# Prepare Write / Execute Write handlers and the write queue (contracts stated in C07.py)
+UNITS += [dict(u) for u in _load('C07').UNITS]
 META = dict(
     level='proof',
     explanation="server.hpp, real bodies: l2cap_input (opcode dispatch, clipping of the response room to the negotiated MTU), both error_response "
@@ -140,9 +142,12 @@ META = dict(
                 "handle 0 or unknown -> invalid handle; exactly one access to the attribute the handle designates with offset / data taken from the "
                 "PDU and with this connection's CCCD store and security attributes; no response for Write Command, Error Response, confirmation.",
     assumptions=["known finding F-C01 (witness class excluded): unsupported commands and client-sent notifications get an Error Response",
-                 "Read By Type (handle_read_by_type_request, all_attributes, collect_attributes, check_size_and_handle_range) is under contract too (units of C02.py; the handler for MTU <= 48 / 12 attributes and MTU <= 300 / 4 attributes in the quick tier). The remaining handlers - Find Information, Find By Type Value, Read By Group Type, Prepare Write, Execute Write - enter "
-                 "l2cap_input by the framing contract only (response opcode or Error Response, length not increased); their bodies iterate the "
-                 "attribute table through template functors and are NOT under contract: memory safety and framing of those five handlers are not decided",
+                 "under contract too, with the same memory model (request = heap object of exactly in_size octets, response room = the output buffer): Read By Type (handler, all_attributes, "
+                 "collect_attributes, check_size_and_handle_range; units of C02.py: MTU <= 48 / 12 attributes and MTU <= 300 / 4 attributes in the quick tier), Find Information (handler "
+                 "and collect_handle_uuid_tuples with a loop contract; C02fi.py), Prepare Write / Execute Write and the write queue (C07.py), the functors of Find By Type Value and Read "
+                 "By Group Type (constructors, each< Service >(), value filter, group collector, read_primary_service_response; C03.py). NOT under contract: the two handler bodies "
+                 "handle_find_by_type_value_request / handle_read_by_group_type_request, which run those functors through details::for_< services >::each (iteration over a type list): "
+                 "they enter l2cap_input by the framing contract only (response opcode or Error Response, length not increased)",
                  "abstract attribute table: index_by_handle returns an index below number_of_attributes or invalid_attribute_index (C04); "
                  "attribute_at(i).access is any function satisfying the ACCESS contract (writes at most buffer_size bytes of a read buffer, never "
                  "grows buffer_size) - proved for the value, CCCD and declaration access functions in C06 / C09, assumed for service, include and "
